@@ -47,12 +47,65 @@ fn text(ts: &[TokenTree]) -> String {
     toks(&s)
 }
 
+/// Occurrences of identifier `s` at any nesting depth.
+fn count_ident(ts: &TokenStream, s: &str) -> usize {
+    ts.clone()
+        .into_iter()
+        .map(|t| match &t {
+            TokenTree::Group(g) => count_ident(&g.stream(), s),
+            t if is_ident(t, s) => 1,
+            _ => 0,
+        })
+        .sum()
+}
+
+/// The first `#…` (at any depth) that is not one of the attributes without semantic effect
+/// (`#[inline…]`, `#[allow…]`, `#[doc…]`).
+fn foreign_attr(ts: &TokenStream) -> Option<String> {
+    let tt = flat(ts.clone());
+    for (i, t) in tt.iter().enumerate() {
+        match t {
+            TokenTree::Group(g) => {
+                if i > 0 && is_punct(&tt[i - 1], '#') {
+                    continue; // the attribute's own bracket group, judged below
+                }
+                if let Some(a) = foreign_attr(&g.stream()) {
+                    return Some(a);
+                }
+            }
+            t if is_punct(t, '#') => {
+                let mut j = i + 1;
+                if j < tt.len() && is_punct(&tt[j], '!') {
+                    j += 1;
+                }
+                let ok = match tt.get(j) {
+                    Some(TokenTree::Group(g)) if g.delimiter() == Delimiter::Bracket => {
+                        matches!(flat(g.stream()).first(), Some(TokenTree::Ident(id)) if ["inline", "allow", "doc"].contains(&id.to_string().as_str()))
+                    }
+                    _ => false,
+                };
+                if !ok {
+                    return Some(text(&tt[i..(j + 1).min(tt.len())]));
+                }
+            }
+            _ => {}
+        }
+    }
+    None
+}
+
 /// Analyse one arm's expansion template. Err(reason) if the shape is not understood.
 fn analyse(macro_name: &str, arm: usize, matcher: &TokenStream, body: &TokenStream) -> std::result::Result<Row, String> {
     let tt = flat(body.clone());
+    // attributes can switch an item off (`#[cfg(..)]`, `#[cfg_attr(..)]`) or change its meaning: any `#`
+    // at any depth other than the harmless ones is not understood (fail closed)
+    if let Some(a) = foreign_attr(body) {
+        return Err(format!("the template carries an attribute the translator does not interpret: `{a}`"));
+    }
     let impls: Vec<usize> = tt.iter().enumerate().filter(|(_, t)| is_ident(t, "impl")).map(|(i, _)| i).collect();
-    if impls.len() != 1 {
-        return Err(format!("{} `impl` items in the template", impls.len()));
+    let deep = count_ident(body, "impl");
+    if impls.len() != 1 || deep != 1 {
+        return Err(format!("{} `impl` keywords in the template ({} at the top level): exactly one impl item expected", deep, impls.len()));
     }
     let k = impls[0];
     let is_unsafe_impl = k > 0 && is_ident(&tt[k - 1], "unsafe");
